@@ -1,5 +1,7 @@
 import WhVerif.Lemmas.C01Dp
 import WhVerif.Lemmas.C01Flat
+import WhVerif.Lemmas.C01Gray
+import WhVerif.Lemmas.C01Table
 /-!
 # C01 — property theorems (about the model `WhVerif.C01` of `PedigreeDPTable`)
 
@@ -71,6 +73,46 @@ theorem backproj_is_restriction (I : Inst) (h : WF I) (c : Nat) (β : List Bool)
 theorem backproj_index (k w idx : Nat) (h : idx < 2 ^ k) :
     natOfBits ((bitsOf k idx).take w) = idx % 2 ^ w := by
   rw [natOfBits_take, natOfBits_bitsOf k idx h]
+
+/-! ## the code-level enumeration: Gray code and incremental cost table -/
+
+/-- `GrayCodes` (src/graycodes.cpp, state `(c, s, i, changed)` as coded) enumerates every bipartition index of a
+column exactly once, starting at 0, and the bit it reports as changed is exactly the bit in which consecutive
+codes differ (what `update_partitioning(bit)` relies on). -/
+theorem gray_enumerates (n : Nat) :
+    (grayList n).length = 2 ^ n ∧
+    (grayList n).head? = some (0, -1) ∧
+    ((grayList n).map Prod.fst).Nodup ∧
+    (∀ p ∈ grayList n, p.1 < 2 ^ n) ∧
+    (∀ k, (h : k + 1 < (grayList n).length) →
+      0 ≤ (grayList n)[k+1].2 ∧ (grayList n)[k+1].2.toNat < n ∧
+      (grayList n)[k+1].1 = (grayList n)[k].1 ^^^ (1 <<< (grayList n)[k+1].2.toNat)) :=
+  WhVerif.C01.gray_enumerates n
+
+theorem gray_exactly_once (n idx : Nat) (h : idx < 2 ^ n) : ((grayList n).map Prod.fst).count idx = 1 :=
+  WhVerif.C01.gray_exactly_once n idx h
+
+/-- `get_cost()` through the per-partition table `cost_partition[p][allele]` equals the per-read definition -/
+theorem colCostTab_eq_colCost (I : Inst) (c : Nat) (bs : List Bool) (t : Nat) (h : TabWF I c t) :
+    colCostTab I c bs t = colCost I c bs t :=
+  WhVerif.C01.colCostTab_eq_colCost I c bs t h
+
+/-- `update_partitioning(bit)` on the table of `bs` gives the table `set_partitioning` computes for `bs` with
+that bit flipped -/
+theorem flip_eq_set (I : Inst) (c t : Nat) (bs : List Bool) (i : Nat) (hi : i < bs.length)
+    (hl : bs.length = (I.activeAt c).length) :
+    flipTable I c t bs (costTable I c t bs) i = costTable I c t (bs.set i (!(bs.getD i false))) :=
+  WhVerif.C01.flip_eq_set I c t bs i hi hl
+
+/-- the bipartition loop of `compute_column`: after the first `k+1` Gray codes the incrementally maintained
+table is exactly the table of the current code -/
+theorem walk_in_sync (I : Inst) (c t k : Nat) (hk : k < 2 ^ (I.activeAt c).length) :
+    ((grayList (I.activeAt c).length).take (k + 1)).foldl (walkStep I c t (I.activeAt c).length)
+        (walkInit I (I.activeAt c).length) =
+      (bitsOf (I.activeAt c).length (gray k), costTable I c t (bitsOf (I.activeAt c).length (gray k))) :=
+  WhVerif.C01.walk_in_sync I c t k hk
+
+example : TabWF exTrio 0 2 := by apply TabWF_of_check; decide
 
 /-! Non-vacuity: a concrete trio instance (3 reads, 3 columns, distinct weights) satisfies `WF`, and the
 theorem's two sides evaluate to the same non-trivial number. -/
